@@ -63,7 +63,7 @@ def registry(G):
 @contract
 class LookupTable:
     fn = "output.core.Output.get_table_from_tables_data"
-    props = ["C04"]
+    props = ["C04", "C03", "C10"]
     raises = ("ValueError",)
     cases = {"plain-lower-case-names": {}}
 
@@ -77,3 +77,283 @@ class LookupTable:
             if key[0] == table_name and key[1] == schema:
                 return self_.tables_dict[key]
         raise ValueError("unknown table")
+
+
+# ------------------------------------------------------------------ ALTER TABLE / CREATE INDEX productions
+from contracts.lib import defcolumn_value, none_or_str, ref_inner  # noqa: E402
+
+
+def alt_table_value(G, name="alt"):
+    return G.record({"alter_table_name": G.str(name + ".table", NAME), "schema": none_or_str(G, name + ".schema", NAME)},
+                    {"if_exists": (name + ".if_exists", True), "only": (name + ".only", True)})
+
+
+def t_name_value(G, name="tn"):
+    return G.record({"schema": none_or_str(G, name + ".schema", NAME), "table_name": G.str(name + ".table", NAME), "columns": [], "checks": []},
+                    {"project": (name + ".has_project", G.str(name + ".project", NAME))})
+
+
+@contract
+class PAltTableName:
+    fn = "dialects.sql.AlterTable.p_alt_table_name"
+    props = ["C04", "C06"]
+    observable = "result"
+    cases = {"ALTER TABLE t_name": dict(if_exists=False, only=False), "ALTER TABLE IF EXISTS t_name": dict(if_exists=True, only=False)}
+
+    def build(G, case):
+        alt = case["_name"]
+        return dict(args=[G.parser(), production(G, alt, {len(alt.split()): t_name_value(G)})])
+
+    def ensures(case, old, new, result):
+        # the statement targets exactly the written table: name, schema (and project) copied verbatim
+        # (the internal if_exists / only markers are not part of the property and are left unspecified)
+        p = new[1]
+        tn = p[len(p) - 1]
+        ok = p[0]["alter_table_name"] == tn["table_name"] and p[0]["schema"] == tn["schema"]
+        if "project" in tn:
+            ok = ok and p[0]["project"] == tn["project"]
+        return ok
+
+
+@contract
+class PAlterColumnStatements:
+    """ALTER TABLE t ADD / DROP COLUMN / MODIFY COLUMN / RENAME COLUMN: the statement names exactly the written column(s)"""
+    fn = "-"
+    props = ["C04"]
+    observable = "result"
+    cases = {
+        "alt_table ADD defcolumn": dict(fn="dialects.sql.AlterTable.p_alter_column_add", key="columns", kind="col", pos=3),
+        "alt_table MODIFY COLUMN defcolumn": dict(fn="dialects.sql.AlterTable.p_alter_column_modify", key="columns_to_modify", kind="col", pos=4),
+        "alt_table MODIFY defcolumn": dict(fn="dialects.oracle.Oracle.p_alter_column_modify_oracle", key="columns_to_modify", kind="col", pos=3),
+        "alt_table DROP COLUMN id": dict(fn="dialects.sql.AlterTable.p_alter_drop_column", key="columns_to_drop", kind="name", pos=4),
+        "alt_table RENAME COLUMN id id id": dict(fn="dialects.sql.AlterTable.p_alter_rename_column", key="columns_to_rename", kind="rename", pos=4),
+    }
+
+    def build(G, case):
+        vals = {1: alt_table_value(G)}
+        if case["kind"] == "col":
+            vals[case["pos"]] = defcolumn_value(G, "new", light=True)
+        return dict(args=[G.parser(), production(G, case["_name"], vals)])
+
+    def spec(case, self_, p):
+        p[0] = p[1]
+        if case["kind"] == "rename":
+            p[0][case["key"]] = [{"from": p[4], "to": p[6]}]
+        else:
+            p[0][case["key"]] = [p[case["pos"]]]
+
+    def ensures(case, old, new, result):
+        return new[1][0] is new[1][1]
+
+
+def pid_names(G, name="pid"):
+    return G.oseq(name, elem=lambda g, n: g.str(n, NAME))
+
+
+@contract
+class PAlterKeyStatements:
+    fn = "-"
+    props = ["C04"]
+    observable = "result"
+    cases = {
+        "alt_table ADD PRIMARY KEY LP pid RP": dict(fn="dialects.sql.AlterTable.p_alter_primary_key", key="primary_key", named=False, pid=6),
+        "alt_table ADD constraint PRIMARY KEY LP pid RP": dict(fn="dialects.sql.AlterTable.p_alter_primary_key", key="primary_key", named=True, pid=7),
+        "alt_table ADD UNIQUE LP pid RP": dict(fn="dialects.sql.AlterTable.p_alter_unique", key="unique", named=False, pid=5),
+        "alt_table ADD constraint UNIQUE LP pid RP": dict(fn="dialects.sql.AlterTable.p_alter_unique", key="unique", named=True, pid=6),
+    }
+
+    def build(G, case):
+        vals = {1: alt_table_value(G), case["pid"]: pid_names(G)}
+        if case["named"]:
+            vals[3] = {"constraint": {"name": G.str("cname", NAME)}}
+        return dict(args=[G.parser(), production(G, case["_name"], vals)])
+
+    def spec(case, self_, p):
+        p[0] = p[1]
+        name = None
+        if case["named"]:
+            name = p[3]["constraint"]["name"]
+        p[0][case["key"]] = {"constraint_name": name, "columns": p[case["pid"]]}
+
+    def ensures(case, old, new, result):
+        return new[1][0] is new[1][1]
+
+
+@contract
+class PCreateIndex:
+    fn = "dialects.sql.BaseSQL.p_create_index"
+    props = ["C04", "C06"]
+    cases = {"CREATE INDEX id": dict(unique=False, clustered=False), "CREATE UNIQUE INDEX id": dict(unique=True, clustered=False),
+             "CREATE CLUSTERED INDEX id": dict(unique=False, clustered=True)}
+
+    def build(G, case):
+        return dict(args=[G.parser(), production(G, case["_name"], {})])
+
+    def requires(case, self_, p):
+        n = p[len(p) - 1]
+        return n != "UNIQUE" and n != "CLUSTERED"
+
+    def spec(case, self_, p):
+        p[0] = {"schema": None, "index_name": p[len(p) - 1], "unique": case["unique"], "clustered": case["clustered"]}
+
+
+def index_value(G):
+    return {"schema": None, "index_name": G.str("ix.name", NAME), "unique": G.bool("ix.unique"), "clustered": G.bool("ix.clustered")}
+
+
+@contract
+class PIndexTableName:
+    fn = "dialects.sql.BaseSQL.p_index_table_name"
+    props = ["C04", "C06"]
+    observable = "result"
+    cases = {"create_index ON id": dict(dot=False), "create_index ON id DOT id": dict(dot=True)}
+
+    def build(G, case):
+        return dict(args=[G.parser(), production(G, case["_name"], {1: index_value(G)})])
+
+    def spec(case, self_, p):
+        p[0] = p[1]
+        if case["dot"]:
+            p[0]["schema"] = p[3]
+            p[0]["table_name"] = p[5]
+        else:
+            p[0]["schema"] = None
+            p[0]["table_name"] = p[3]
+
+    def ensures(case, old, new, result):
+        return new[1][0] is new[1][1]
+
+
+def index_col(G, name):
+    return {"name": G.str(name + ".name", NAME), "order": G.str(name + ".order", r"ASC|DESC", "ASC"), "nulls": G.str(name + ".nulls", NAME, "LAST")}
+
+
+@contract
+class PIndexPid:
+    """index column lists: every column once, in order, with its sort direction (any letter case of ASC / DESC)"""
+    fn = "dialects.sql.BaseSQL.p_index_pid"
+    props = ["C04", "C05"]
+    observable = "result"
+    cases = {"id": dict(kind="first"), "index_pid id": dict(kind="modifier"), "index_pid COMMA index_pid": dict(kind="join")}
+
+    def build(G, case):
+        k = case["kind"]
+        if k == "first":
+            return dict(args=[G.parser(), production(G, "id", {1: G.str("col", NAME, "a")})])
+        one = {"detailed_columns": [index_col(G, "c0")], "columns": [G.str("c0.col", NAME)]}
+        if k == "modifier":
+            return dict(args=[G.parser(), production(G, "index_pid id", {1: one, 2: G.str("word", NAME, "desc")})])
+        left = {"detailed_columns": G.oseq("ld", elem=index_col), "columns": G.oseq("lc", elem=lambda g, n: g.str(n, NAME))}
+        return dict(args=[G.parser(), production(G, "index_pid COMMA index_pid", {1: left, 3: one})])
+
+    def spec(case, self_, p):
+        k = case["kind"]
+        if k == "first":
+            p[0] = {"detailed_columns": [{"name": p[1], "order": "ASC", "nulls": "LAST"}], "columns": [p[1]]}
+            return
+        p[0] = p[1]
+        if k == "modifier":
+            if p[2].upper() in ["ASC", "DESC"]:
+                p[0]["detailed_columns"][0]["order"] = p[2].upper()
+            else:
+                p[0]["detailed_columns"][0]["nulls"] = p[2]
+        else:
+            p[0]["columns"].append(p[3]["columns"][0])
+            p[0]["detailed_columns"].append(p[3]["detailed_columns"][0])
+
+    def ensures(case, old, new, result):
+        return case["kind"] == "first" or new[1][0] is new[1][1]
+
+
+# ------------------------------------------------------------------ effects of ALTER statements on the table object
+# SHAPE-BOUNDED: the column list has a fixed length per case (0..3 columns); names, spellings and all attribute
+# values are symbolic, so matching (quoting / case insensitive), position and frame are proved for every content,
+# but not for every list length (search loops with `break` are outside the fold-form loop rule).
+from contracts.lib import TYPE_TEXT  # noqa: E402
+
+
+def quoted2(G, name):
+    """column spelling: plain or bracket-quoted (the statement's target name takes all four styles)"""
+    core = G.str(name + ".core", CORE, "Col")
+    a, b = [("", ""), ("[", "]")][G.choice(name + ".style", 2)]
+    return a + core + b
+
+
+def plain_col(G, name):
+    return {"name": quoted2(G, name), "type": G.str(name + ".type", TYPE_TEXT, "int"), "size": None, "references": None,
+            "unique": G.bool(name + ".unique"), "nullable": G.bool(name + ".nullable"), "default": None, "check": None}
+
+
+def table_obj(G, n_cols, pk=False):
+    cols = [plain_col(G, "c%d" % i) for i in range(n_cols)]
+    pk_list = [quoted2(G, "pk0")] if pk else []
+    return G.obj("BaseData", columns=cols, alter={}, primary_key=pk_list, table_name=G.str("t", NAME), schema=None)
+
+
+def norm(n):
+    return n.replace('"', "").replace("`", "").replace("[", "").replace("]", "").lower()
+
+
+def first_match(cols, name):
+    for i in range(len(cols)):
+        if norm(cols[i]["name"]) == norm(name):
+            return i
+    return None
+
+
+@contract
+class AlterDropColumns:
+    fn = "output.base_data.BaseData.alter_drop_columns"
+    props = ["C04"]
+    cases = {"%d columns" % n: dict(n=n) for n in (0, 1, 2, 3)}
+
+    def build(G, case):
+        return dict(args=[table_obj(G, case["n"]), {"columns_to_drop": [quoted(G, "target")[0]], "alter_table_name": G.str("t", NAME), "schema": None}])
+
+    def spec(case, self_, statement):
+        self_.alter["dropped_columns"] = []
+        i = first_match(self_.columns, statement["columns_to_drop"][0])
+        if i is not None:
+            self_.alter["dropped_columns"] = self_.columns[i]
+            del self_.columns[i]
+
+
+@contract
+class AlterRenameColumns:
+    fn = "output.base_data.BaseData.alter_rename_columns"
+    props = ["C04", "C12"]
+    cases = {"%d columns" % n: dict(n=n) for n in (0, 1, 2)}
+
+    def build(G, case):
+        ren = {"from": quoted(G, "target")[0], "to": G.str("new_name", NAME)}
+        return dict(args=[table_obj(G, case["n"], pk=True), {"columns_to_rename": [ren], "alter_table_name": G.str("t", NAME), "schema": None}])
+
+    def spec(case, self_, statement):
+        ren = statement["columns_to_rename"][0]
+        i = first_match(self_.columns, ren["from"])
+        if i is not None:
+            # the primary key names columns of the table: it follows the rename (same matching, in place)
+            old_name = self_.columns[i]["name"]
+            for k in range(len(self_.primary_key)):
+                if norm(self_.primary_key[k]) == norm(old_name):
+                    self_.primary_key[k] = ren["to"]
+            self_.columns[i]["name"] = ren["to"]
+        self_.alter["renamed_columns"] = [ren]
+
+
+@contract
+class AlterModifyColumns:
+    fn = "output.base_data.BaseData.alter_modify_columns"
+    props = ["C04"]
+    cases = {"%d columns" % n: dict(n=n) for n in (0, 1, 2, 3)}
+
+    def build(G, case):
+        return dict(args=[table_obj(G, case["n"]), {"columns_to_modify": [plain_col(G, "target")], "alter_table_name": G.str("t", NAME), "schema": None}])
+
+    def spec(case, self_, statement):
+        new = statement["columns_to_modify"][0]
+        self_.alter["modified_columns"] = []
+        i = first_match(self_.columns, new["name"])
+        if i is not None:
+            self_.alter["modified_columns"] = self_.columns[i]
+            self_.columns[i] = new
